@@ -222,6 +222,9 @@ func Build(cfg *Cfg) (c *restful.Container, err error) {
 	if cfg.CustomErr {
 		// same header handling as the library's writeServiceError, a message text of our own
 		c.ServiceErrorHandler(func(e restful.ServiceError, req *restful.Request, resp *restful.Response) {
+			// user code at the end of the chain the container filters walked: it records the pair it
+			// is handed like every other stage (it must be the pair the last filter passed on)
+			logStage(req, req.Request, resp, "err", false)
 			for h, vs := range e.Header {
 				for _, v := range vs {
 					resp.Header().Add(h, v)
@@ -398,6 +401,7 @@ func serveImpl(c *restful.Container, cfg *Cfg, r SReq, led *Ledger, sequential b
 		}
 	}()
 	a1, r1, d1 := led.Snapshot()
+	res.KeepErr = cfg.CustomErr
 	res.Acq, res.Rel, res.DblRel = a1-a0, r1-r0, d1-d0
 	res.Recov = t.recov
 	res.Log = t.log
@@ -440,6 +444,14 @@ func serveImpl(c *restful.Container, cfg *Cfg, r SReq, led *Ledger, sequential b
 		} else {
 			dec, err := io.ReadAll(rd)
 			res.Body, res.Complete = string(dec), err == nil
+		}
+	}
+	// "complete" as a client sees it: a declared Content-Length that differs from the number of
+	// body bytes sent truncates the body or leaves the client waiting (the library itself never
+	// declares a length, and no script of the harness does)
+	if cl := result.Header.Get("Content-Length"); cl != "" && hr.Method != "HEAD" {
+		if n, err := strconv.Atoi(strings.TrimSpace(cl)); err != nil || n != len(raw) {
+			res.Complete = false
 		}
 	}
 	return res
